@@ -47,18 +47,49 @@ def _gone(replay, r):
     return r.split(':')[0] != str(replay.get('signature', '')).split(':')[0]
 
 
+_BSL = r'(?:(?<=\n)|(?<=\r)|^)([ \t\f]*)\\(?:\r\n|\n|\r)[ \t\f]*'   # any of the three line ends, also after a lone CR
+
+
+def _neutralise_backslash_only_lines(text):
+    fixed = text
+    for _ in range(50):          # several such lines in a row: each pass joins one of them with what follows
+        nxt = re.sub(_BSL, lambda m: m.group(1), fixed)
+        if nxt == fixed:
+            break
+        fixed = nxt
+    return fixed
+
+
+def _neutralise_formfeed_at_line_start(text):
+    # CPython resets the column at a form feed: what counts is the white space after the last one
+    return re.sub(r'(?m)^[ \t\f]*\f', '', text)
+
+
+def _gone_without(replay, own, others):
+    """the named failure disappears when the feature of this finding is neutralised - or, in an input composed of several programs, when the features of
+    the other recorded tokenizer findings that the input also has are neutralised with it (a failure that survives all of that is a new one)"""
+    mod = importlib.import_module('harness.props.' + replay['property'])
+    if not hasattr(mod, 'recheck'):
+        return True
+    text = _text(replay)
+    fixed = own(text)
+    if _gone(replay, mod.recheck(replay, fixed)):
+        return True
+    for other in others:
+        fixed2 = other(fixed)
+        if fixed2 != fixed:
+            fixed = own(fixed2)
+            if _gone(replay, mod.recheck(replay, fixed)):
+                return True
+    return False
+
+
 def backslash_only_line(replay):
     """F13: the input has a physical line that consists of white space and a backslash continuation only,
     and removing those lines' backslash-newline makes the failure go away"""
-    text = _text(replay)
-    pat = r'(?:(?<=\n)|(?<=\r)|^)([ \t\f]*)\\(?:\r\n|\n|\r)[ \t\f]*'   # any of the three line ends, also after a lone CR
-    if not re.search(pat, text):
+    if not re.search(_BSL, _text(replay)):
         return False
-    fixed = re.sub(pat, lambda m: m.group(1), text)
-    mod = importlib.import_module('harness.props.' + replay['property'])
-    if hasattr(mod, 'recheck'):
-        return _gone(replay, mod.recheck(replay, fixed))
-    return True
+    return _gone_without(replay, _neutralise_backslash_only_lines, [_neutralise_formfeed_at_line_start])
 
 
 def needs_pep701(replay):
@@ -76,16 +107,9 @@ def needs_pep701(replay):
 
 def formfeed_at_line_start(replay):
     """F14: a form feed in the leading white space of a line, and removing those form feeds makes the failure go away"""
-    text = _text(replay)
-    pat = r'(?m)^([ \t]*)\f+'
-    if not re.search(pat, text):
+    if not re.search(r'(?m)^([ \t]*)\f+', _text(replay)):
         return False
-    # CPython resets the column at a form feed: what counts is the white space after the last one
-    fixed = re.sub(r'(?m)^[ \t\f]*\f', '', text)
-    mod = importlib.import_module('harness.props.' + replay['property'])
-    if hasattr(mod, 'recheck'):
-        return _gone(replay, mod.recheck(replay, fixed))
-    return True
+    return _gone_without(replay, _neutralise_formfeed_at_line_start, [_neutralise_backslash_only_lines])
 
 
 def global_after_import_path_name(replay):
